@@ -322,6 +322,9 @@ package sqlite
 
 //@ func (*SqliteStoreWorker).searchPromises
 //@ props C16 C17 C02 C20 C14 C01 C04
+// every requested tag contributes its predicate and its two arguments to the statement (C14)
+//@ count-appends
+//@ site loop 2 backedge assert [C14 C16] itercalls("append") == 2
 //@ records handler
 // every returned record is the row it was scanned from, column by column (C01, C20: what a sweep or a search reports is what is stored)
 //@ site loop 3 backedge assert scanned(rows, record, "SearchPromises")
@@ -357,6 +360,10 @@ package sqlite
 
 //@ func (*SqliteStoreWorker).searchSchedules
 //@ props C16 C17 C02 C20 C14 C10 C01
+// every requested tag contributes its predicate and its two arguments to the statement: no tag of the filter is
+// dropped (C14: nothing that does not match is returned)
+//@ count-appends
+//@ site loop 1 backedge assert [C14 C16] itercalls("append") == 2
 //@ records handler
 // every returned record is the row it was scanned from, column by column (C01, C20: what a sweep or a search reports is what is stored)
 //@ site loop 2 backedge assert scanned(rows, record, "SearchSchedules")
